@@ -265,7 +265,13 @@ func checkR(c RCase, r *vf.R) error {
 	for _, sg := range segs {
 		if sg.Cmd == oracle.ArcTo {
 			if ch := sg.P0.Dist(sg.End()); ch > 0 && ch < 2*sg.Args[0] {
-				tolSVG += 6 * rel * mabs * sg.Args[0] / ch
+				cond := 6 * rel * mabs * sg.Args[0] / ch
+				if cond > 0.05*mabs {
+					// the printed end points leave the arc's centre undetermined to more than a twentieth of the drawing
+					r.Class("arc-ill-conditioned-at-printed-resolution(skipped)")
+					return nil
+				}
+				tolSVG += cond
 			}
 		}
 	}
